@@ -1,4 +1,4 @@
-// Package evmledger is a transactional in-memory-free ERC20 ledger that
+// Package evmledger is a transactional ERC20 ledger (state kept in the KV store) that
 // implements the token module's EVMKeeper (and ICS20Keeper) interfaces for the
 // verification harnesses.
 //
